@@ -9,6 +9,7 @@ from mc.ref import cert as RC
 PROPERTY = "C01"
 LEVEL = "model_checking"
 ASSUMPTIONS = [
+    "warm starts of exp-based losses (logistic, Poisson, Gamma, Cox) are kept inside |X w0 + b| <= 30 (float64 saturation regime excluded)",
     "certificate recomputed by mc/ref/cert.py from X, y and the returned coefficients only (reference losses/penalties); "
     "the measure is the one the requested strategy defines (subdifferential distance, or fixed-point residual with the "
     "documented step sizes), joined with |dF/d intercept|",
@@ -61,6 +62,8 @@ def comps_for_domain(task, tier, d_max):
                             from mc.comp import fit_intercept_of
                             W = R.starts(p_eff, fit_intercept_of(sspec), tier, multitask)
                             if ks["start"] >= len(W):
+                                continue
+                            if not R.start_in_range(dn, X, W[ks["start"]], fit_intercept_of(sspec)):
                                 continue
                             comp["w_init"] = W[ks["start"]].tolist()
                         yield comp
